@@ -1,6 +1,7 @@
 /- Line-protocol handlers of property C17: the generated kernel IR and its kind obligations. -/
 import SkNet.Model.KernelIR
 import SkNet.Generated.KernelIR
+import SkNet.Model.KernelsHeap
 
 namespace SkNet.Drive.C17
 open SkNet SkNet.Proto SkNet.IR
@@ -73,6 +74,14 @@ def handle : Handler
   | "c17.exec", [nm, dims, sc, ar, fuel, seed] => some <| match findKernel nm, inputs? dims sc ar, fuel.toNat?, seed.toNat? with
       | some K, some inp, some f, some sd => showRes K (exec f K.body (inp.state (oracle sd)))
       | _, _, _, _ => "bad-args"
+  -- checked model of compute_core (repaired __cinit__): `ok <labels>` | `err oob` | `err fuel`
+  | "c17.core", [ip, ix] => some <| Option.getD (do
+      let ip ← natList? ip
+      let ix ← natList? ix
+      match KHeap.computeCore? true ip ix with
+      | .ok l => some ("ok " ++ showList l)
+      | .error .oob => some "err oob"
+      | .error .fuel => some "err fuel") "bad-args"
   | _, _ => none
 
 end SkNet.Drive.C17
